@@ -31,11 +31,7 @@ class LazyList:
         return gen()
 
     def __bool__(self):
-        try:
-            next(self)
-            return True
-        except StopIteration:
-            return False
+        return self.has_ind(0)
 
     def __call__(self, *args, **kwargs):
         return self
